@@ -53,6 +53,17 @@ func (b Bonder) Bond(ctx context.Context, mutable state.Mutable, tx *chain.Trans
 		return false, err
 	}
 
+	// Bonding is idempotent: a tx that is already bonded must not be charged twice
+	// because it will only be unbonded once.
+	txID := tx.GetID()
+	alreadyBonded, err := b.db.Has(txID[:])
+	if err != nil {
+		return false, fmt.Errorf("failed to check tx fee: %w", err)
+	}
+	if alreadyBonded {
+		return true, nil
+	}
+
 	maxBalanceBytes, err := mutable.GetValue(ctx, newStateKey(addressBytes))
 	if err != nil && !errors.Is(err, database.ErrNotFound) {
 		return false, fmt.Errorf("failed to get max bond balance: %w", err)
@@ -82,7 +93,6 @@ func (b Bonder) Bond(ctx context.Context, mutable state.Mutable, tx *chain.Trans
 		return false, err
 	}
 
-	txID := tx.GetID()
 	if err := batch.Put(txID[:], binary.BigEndian.AppendUint64(nil, fee)); err != nil {
 		return false, fmt.Errorf("failed to write tx fee: %w", err)
 	}
